@@ -35,6 +35,7 @@ limit / ANY(free < demand), and decrement_affinity withdraws the whole
 multiset (shared with C04). Fourth round: C02.4 the feasibility memo consulted
 by a placement walk is created by that walk, on every path (never handed in
 across partitions); C02.6 also covers the deletion path (shared with C05.2).
+Sweep: C02.1 / C02.6 the accumulation over children and the placement walk over the queue are never cut short (no break or return inside the loop).
 Does NOT decide the liveness statement as a whole (quiescent states reached
 by histories) nor the strategies' index arithmetic.
 """
